@@ -17,7 +17,7 @@ RULE = ('configurations (local/remote AS over the 2-/4-octet boundary incl. iBGP
         'decoded by the reference decoder and compared with the configuration and with the first OPEN of the world; the answer to the '
         'peer OPEN, the measured hold time and the AS_PATH decoding mode are compared with the policy; '
         'distinct = distinct (configuration, history shape, peer OPEN) triples')
-ASSUMPTIONS = ['ext_nexthop (vpnv4/vpnv6 families) cannot be configured with the installed oslo.config (nested ListOpt default is stringified; get_bgp_config raises) - that capability is not exercised',
+ASSUMPTIONS = ['multihomed cases: no local address configured, the simulated socket reports a different local address for every connection', 'ext_nexthop (vpnv4/vpnv6 families) cannot be configured with the installed oslo.config (nested ListOpt default is stringified; get_bgp_config raises) - that capability is not exercised',
                'simulated reactor; the transport reports the configured local address as the local end of the socket',
                'reference OPEN decoder vlib/wire.py']
 SHARD_TIMEOUT = {'quick': 400, 'thorough': 2400}
@@ -88,12 +88,19 @@ def expected_caps(cfg):
     return allowed
 
 
+LOCAL_ADDRS = ['192.0.2.1', '198.51.100.7', '203.0.113.200', '10.255.0.1']
+
+
 def mk_world(cfg):
+    # multihomed: no local address configured, the socket's local end differs from one connection to the next
     return World(local_as=cfg['local_as'], remote_as=cfg['remote_as'], time_opts={'hold_time': cfg['hold'], 'idle_hold_time': 5},
-                 bgp_opts=cfg['bgp'])
+                 bgp_opts=cfg['bgp'], **({'local_addr': '0.0.0.0'} if cfg.get('multihomed') else {}))
 
 
 def next_connection(w):
+    if getattr(w, 'multihomed', False):
+        w.n_conn = getattr(w, 'n_conn', 0) + 1
+        reactor.local_host = LOCAL_ADDRS[w.n_conn % len(LOCAL_ADDRS)]
     g = 0
     while not w.pending() and g < 50:
         if not w.tick():
@@ -278,6 +285,7 @@ def run_case(case, V, stats):
     cfg = case['cfg']
     rng = random.Random(case['seed'])
     w = mk_world(cfg)
+    w.multihomed = bool(cfg.get('multihomed'))
     first = None
     ctx0 = 'cfg(local %s remote %s hold %s %s)' % (cfg['local_as'], cfg['remote_as'], cfg['hold'], {k: v for k, v in cfg['bgp'].items()})
     for i, po in enumerate(case['history']):
@@ -313,6 +321,8 @@ def gen_cases(rng, n):
         if rng.random() < 0.3:
             bgp['afi_safi'] = rng.choice([['ipv4', 'ipv6'], ['ipv4', 'flowspec', 'evpn'], ['ipv6']])
         cfg = dict(local_as=la, remote_as=ra, hold=rng.choice(CFG_HOLDS), bgp=bgp)
+        if rng.random() < 0.25:
+            cfg['multihomed'] = True
         hist = [rand_peer(rng, cfg) for _ in range(rng.choice([0, 0, 1, 2, 3, 4]))]
         yield dict(cfg=cfg, history=hist, peer=rand_peer(rng, cfg, good=rng.random() < 0.7), seed=rng.randrange(1 << 30))
 
@@ -341,6 +351,8 @@ def systematic_cases():
                     hist = [dict(ver=4, asn=65002, hold=hh, caps=hc, end=dict(phase=phase, how=how))]
                     yield dict(cfg=cfg, history=hist, peer=dict(ver=4, asn=65002, hold=90, caps='mp+rr+as4'), seed=3)
                     yield dict(cfg=cfg, history=hist * 2, peer=dict(ver=4, asn=65002, hold=90, caps='mp'), seed=4)
+                    if hh == 30:
+                        yield dict(cfg=dict(cfg, multihomed=True), history=hist * 2, peer=dict(ver=4, asn=65002, hold=90, caps='mp+rr+as4'), seed=5)
     # every capability-switch subset with a poor and a rich peer before the observed session
     for bits in itertools.product([False, True], repeat=4):
         bgp = dict(zip(['four_bytes_as', 'route_refresh', 'cisco_route_refresh', 'enhanced_route_refresh'], bits))
